@@ -14,44 +14,58 @@ Inductive case :=
 | Scripted (cp : caps) (steps : list (op * obs)) (still : list N)
 | Concurrent (log : list cevent).     (* (b): a test; only the monitor is evaluated *)
 
-(** *** the pump goroutines run to quiescence (deterministic, high before low).
+(** *** the pump goroutines run to quiescence (high before low).
     After the topic was closed Go's select may either take another high message or see
-    [done]: that choice is resolved by the observed recv length [want]. *)
-Definition pump_one (s : state) (c : N) (want : N) : option state :=
+    [done]; both continuations are followed ([pump_client_nd]) and the observations decide. *)
+Inductive pump_move := PM (s : state) | PMChoice (take exit : option state) | PMRest.
+
+Definition pump_one (s : state) (c : N) : pump_move :=
   let cl := gc s c in
+  let of_opt o := match o with Some s' => PM s' | None => PMRest end in
   match c_pump cl with
   | PRun =>
       match c_hold cl with
-      | Some _ => step s (EPumpPut c)
+      | Some _ => of_opt (step s (EPumpPut c))
       | None =>
           let tp := gt s (c_topic cl) in
           if t_closed tp then
-            if negb (fis_empty (t_high tp)) && (f_len (c_recv cl) <? want)
-            then step s (EPumpTake c true) else step s (EPumpExit c)
-          else if negb (fis_empty (t_high tp)) then step s (EPumpTake c true)
-          else step s (EPumpTake c false)
+            if fis_empty (t_high tp) then of_opt (step s (EPumpExit c))
+            else PMChoice (step s (EPumpTake c true)) (step s (EPumpExit c))
+          else if negb (fis_empty (t_high tp)) then of_opt (step s (EPumpTake c true))
+          else of_opt (step s (EPumpTake c false))
       end
   | PExit =>
       if c_closed cl then
         match c_hold cl with
-        | Some _ => step s (EDrainReply c)
-        | None => step s (EDrain c)
+        | Some _ => of_opt (step s (EDrainReply c))
+        | None => of_opt (step s (EDrain c))
         end
-      else step s (ECloseEnd c)
-  | PNone => None
+      else of_opt (step s (ECloseEnd c))
+  | PNone => PMRest
   end.
 
-Fixpoint pump_client (fuel : nat) (s : state) (c : N) (want : N) : state :=
+Fixpoint pump_client_nd (fuel : nat) (s : state) (c : N) : list state :=
   match fuel with
-  | O => s
-  | S f => match pump_one s c want with Some s' => pump_client f s' c want | None => s end
+  | O => [s]
+  | S f =>
+      match pump_one s c with
+      | PM s' => pump_client_nd f s' c
+      | PMChoice a b =>
+          match a with Some s' => pump_client_nd f s' c | None => [] end
+          ++ match b with Some s' => pump_client_nd f s' c | None => [] end
+      | PMRest => [s]
+      end
   end.
 
-Fixpoint pump_all (fuel : nat) (s : state) (c : N) (wants : list N) : state :=
-  match wants with
-  | [] => s
-  | w :: tl => pump_all fuel (pump_client fuel s c w) (N.succ c) tl
+Fixpoint pump_all_nd (fuel : nat) (ss : list state) (c : N) (n : nat) : list state :=
+  match n with
+  | O => ss
+  | S n' => pump_all_nd fuel (flat_map (fun s => pump_client_nd fuel s c) ss) (N.succ c) n'
   end.
+
+(* deterministic version (the choice does not arise while the topic is open) *)
+Definition pump_all (fuel : nat) (s : state) (n : nat) : state :=
+  match pump_all_nd fuel [s] 0 n with x :: _ => x | [] => s end.
 
 (** completions: apply the observed ones that are enabled, pumping in between *)
 Definition comp_event (x : comp) : event :=
@@ -66,15 +80,15 @@ Fixpoint take_enabled (s : state) (cs acc : list comp) : option (state * list co
                end
   end.
 
-Fixpoint settle (n : nat) (fuel : nat) (s : state) (cs : list comp) (wants : list N) : state * list comp :=
-  let s1 := pump_all fuel s 0 wants in
-  match n with
-  | O => (s1, cs)
-  | S n' => match take_enabled s1 cs [] with
-            | Some (s2, cs') => settle n' fuel s2 cs' wants
-            | None => (s1, cs)
-            end
-  end.
+Fixpoint settle (n : nat) (fuel : nat) (nc : nat) (s : state) (cs : list comp) : list (state * list comp) :=
+  flat_map (fun s1 =>
+              match n with
+              | O => [(s1, cs)]
+              | S n' => match take_enabled s1 cs [] with
+                        | Some (s2, cs') => settle n' fuel nc s2 cs'
+                        | None => [(s1, cs)]
+                        end
+              end) (pump_all_nd fuel [s] 0 nc).
 
 (** nothing that the model says can complete (without a timer) was left blocked *)
 Definition pend_quiet (s : state) : bool :=
@@ -104,11 +118,11 @@ Fixpoint lens_ok_c (s : state) (c : N) (l : list N) : bool :=
   end.
 
 (** n x (NewMessage; low-priority non-blocking send), the pumps settling after each send *)
-Fixpoint fill (n : nat) (fuel : nat) (wants : list N) (s : state) (c t o i : N) : option state :=
+Fixpoint fill (n : nat) (fuel : nat) (nc : nat) (s : state) (c t o i : N) : option state :=
   match n with
   | O => Some s
   | S n' => match run s [ENew o t i; ESend c o false MNow SOk] with
-            | Some s' => fill n' fuel wants (pump_all fuel s' 0 wants) c t (N.succ o) (N.succ i)
+            | Some s' => fill n' fuel nc (pump_all fuel s' nc) c t (N.succ o) (N.succ i)
             | None => None
             end
   end.
@@ -146,7 +160,7 @@ Definition wait_blocked (s : state) (c o : N) : bool :=
   end.
 
 (** the model's reading of one API call; [None] = the model cannot do what was observed *)
-Definition apply_op (fuel : nat) (wants : list N) (s : state) (o : op) : option state :=
+Definition apply_op (fuel : nat) (nc : nat) (s : state) (o : op) : option state :=
   match o with
   | ONew ob t i => step s (ENew ob t i)
   | OFree ob => step s (EFree ob)
@@ -161,7 +175,7 @@ Definition apply_op (fuel : nat) (wants : list N) (s : state) (o : op) : option 
       end
   | OSend p c ob hi m (Some r) => step s (ESend c ob hi m r)
   | OSend p c ob hi m None => match m with MForever => step s (EBlock p c ob hi m) | _ => None end
-  | OFill c t o0 i0 n => if n <=? 64 then fill (N.to_nat n) fuel wants s c t o0 i0 else bulk_fill n s c t o0 i0
+  | OFill c t o0 i0 n => if n <=? 64 then fill (N.to_nat n) fuel nc s c t o0 i0 else bulk_fill n s c t o0 i0
   | ORecv c (Some (Some (ob, i))) => step s (ERecv c ob i)
   | ORecv c (Some None) => step s (ERecvClosed c)
   | ORecv c None =>
@@ -179,6 +193,7 @@ Definition apply_op (fuel : nat) (wants : list N) (s : state) (o : op) : option 
       | None => step s (ECloseBegin c)      (* ECloseEnd: see [close_ret] *)
       end
   | OCloseQ => step s ECloseQueue
+  | OPanic _ => None
   end.
 
 (* for OClose: the call returns iff ECloseEnd is enabled after the pump has settled *)
@@ -190,24 +205,35 @@ Definition close_comps (o : op) (s_before : state) : list comp :=
 
 Definition caps_fuel (cp : caps) : nat := N.to_nat (2 * (hcap cp + lcap cp + rcap cp) + 16).
 
-Fixpoint replay (fuel : nat) (s : state) (steps : list (op * obs)) : option state :=
+Definition step_cands (fuel : nat) (cands : list state) (x : op * obs) : list state :=
+  let '(o, ob) := x in
+  let nc := length (ob_cl ob) in
+  flat_map (fun s =>
+    match apply_op fuel nc s o with
+    | None => []
+    | Some s1 =>
+        let cs := close_comps o s ++ ob_comps ob in
+        let seen := comps_closed cs in
+        flat_map (fun r : state * list comp =>
+                    let '(s2, rest) := r in
+                    let newly := filter (fun c => negb (memN c (closes_done s))) (closes_done s2) in
+                    match rest with
+                    | [] => if pend_quiet s2 && subset newly seen && subset seen newly
+                               && lens_ok_t s2 0 (ob_tl ob) && lens_ok_c s2 0 (ob_cl ob)
+                            then [s2] else []
+                    | _ => []
+                    end)
+                 (settle (S (length cs)) fuel nc s1 (sends_of cs))
+    end) cands.
+
+(* the model states compatible with everything observed so far (at most a handful) *)
+Fixpoint replay (fuel : nat) (cands : list state) (steps : list (op * obs)) : list state :=
   match steps with
-  | [] => Some s
-  | (o, ob) :: tl =>
-      match apply_op fuel (ob_cl ob) s o with
-      | None => None
-      | Some s1 =>
-          let cs := close_comps o s ++ ob_comps ob in
-          let '(s2, rest) := settle (S (length cs)) fuel s1 (sends_of cs) (ob_cl ob) in
-          let newly := filter (fun c => negb (memN c (closes_done s))) (closes_done s2) in
-          let seen := comps_closed cs in
-          match rest with
-          | [] => if pend_quiet s2 && subset newly seen && subset seen newly
-                     && lens_ok_t s2 0 (ob_tl ob) && lens_ok_c s2 0 (ob_cl ob)
-                  then replay fuel s2 tl else None
-          | _ => None
-          end
-      end
+  | [] => cands
+  | x :: tl => match step_cands fuel cands x with
+               | [] => []
+               | cs => replay fuel (firstn 8 cs) tl
+               end
   end.
 
 Definition still_ok (s : state) (still : list N) : bool :=
@@ -225,13 +251,10 @@ Definition check_case (c : case) : verdict :=
   match c with
   | Scripted cp steps still =>
       let ops := map fst steps in
-      let m := match replay (caps_fuel cp) (init cp) steps with
-               | Some s => still_ok s still
-               | None => false
-               end in
+      let m := existsb (fun s => still_ok s still) (replay (caps_fuel cp) [init cp] steps) in
       let d := disciplined [] ops in
       let steps' := map (fun x => (fst x, ob_comps (snd x))) steps in
-      let s12 := negb d || (own_reply [] ops && at_most_once ops) in
+      let s12 := no_panic ops && (negb d || (own_reply [] ops && at_most_once ops)) in
       let s3 := after_close true [] [] false steps' in
       let s3sub := after_close false [] [] false steps' in
       let s4 := no_block_forever ops still in
